@@ -254,7 +254,7 @@ func rewriteBlock(ctx *promotionContext, blk *[]ir.Statement, candidates map[uin
 // without explicit Init see zero per the WGSL specification).
 func initialValues(ctx *promotionContext, candidates map[uint32]struct{}) map[uint32]ir.ExpressionHandle {
 	out := make(map[uint32]ir.ExpressionHandle, len(candidates))
-	for v := range candidates {
+	for _, v := range sortedVars(candidates) {
 		lv := &ctx.fn.LocalVars[v]
 		if lv.Init != nil {
 			out[v] = *lv.Init
